@@ -49,16 +49,17 @@ func didQueryRules(p *Prog, r *Report, m *didModel, clause string, wantLife, wan
 			r.Check(ok, kp("ORIGIN", hn+"#looks-up-the-requested-did"), "the read operation looks up exactly the identifier the client asked for (the base64-decoded request field, untransformed)", p.FnPos(fn),
 				fmt.Sprintf("GetDIDDocument(ctx, %v)", did), fmt.Sprintf("the identifier looked up is %v: a transformation between the request and the store key can resolve one DID to the document of another", did))
 		}
-		for i, ret := range successReturns(fn) {
+		for i, ex := range successExits(fn) {
+			ret := ex.Ret
 			site := p.Pos(ret.Pos())
 			if wantLife {
-				F := didStateOf(fa.At(ret.Block()), get)
+				F := didStateOf(fa.AtExit(ex), get)
 				r.Check(Entails(F, didActive), kp("GUARD", fmt.Sprintf("%s#return%d#active-only", hn, i)),
 					"the read operation succeeds only for an active entry (absent and deactivated are reported as not found)", site,
 					"path condition entails Document != nil && Id != \"\"", "a tombstone or missing entry can be returned as found: "+F.String())
 			}
 			if wantSeq {
-				rt := o.Of(ret.Results[0])
+				rt := o.Of(ex.Results[0])
 				f := rt.Field("DidDocumentWithSeq")
 				ok := f != nil && f.Op == "addr" && f.Args[0].Eq(get)
 				r.Check(ok, kp("ORIGIN", fmt.Sprintf("%s#return%d#returns-stored-entry", hn, i)),
